@@ -832,3 +832,14 @@ mod tests {
     // TODO: Test invalid datagrams
 }
 
+
+#[cfg(uflow_verif)]
+impl PacketReceiver {
+    pub fn verif_end_id(&self) -> u32 {
+        self.end_id
+    }
+
+    pub fn verif_alloc(&self) -> usize {
+        self.assembly_window.verif_alloc()
+    }
+}
